@@ -14,7 +14,7 @@ PORTABLE_DEMO = "--portable-demo" in sys.argv
 prop, src, name = args[0], args[1], args[2]
 extra = args[3:]
 WT = "/tmp/wt/eval"
-ENV = dict(os.environ, CARGO_NET_OFFLINE="true")
+ENV = dict(os.environ, CARGO_NET_OFFLINE="true", VERIF_EVIDENCE_DIR="/tmp/wt/eval-evidence", VERIF_REPLAYS_DIR="/tmp/wt/eval-replays")
 FEATURES = "rayon,serde,rustc-internal-api,verif-hooks"
 
 def run(cmd, cwd=None, timeout=3600):
